@@ -131,6 +131,74 @@ theorem two_record_chain_partitions (o n x : Nat) (h : o < n) :
 theorem one_record_chain (o x : Nat) : nsec3Cover true o o x = true ↔ x ≠ o := by
   rw [cover_iff]; simp [strictlyBetweenCircular]
 
+/-! ### complete chains of any length -/
+
+/-- strictly ascending owner hashes -/
+def Ascending : List Nat → Prop
+  | [] => True
+  | [_] => True
+  | a :: b :: r => a < b ∧ Ascending (b :: r)
+
+/-- the (owner hash, next hash) pairs of the chain over ascending hashes; the last record points back to `first` -/
+def chainPairs (first : Nat) : List Nat → List (Nat × Nat)
+  | [] => []
+  | [a] => [(a, first)]
+  | a :: b :: r => (a, b) :: chainPairs first (b :: r)
+
+theorem chain_covers_above (first : Nat) (hs : List Nat) (a x : Nat) (hasc : Ascending (a :: hs)) (hf : first ≤ a)
+    (hx : a < x) (hn : x ∉ hs) :
+    ∃ p ∈ chainPairs first (a :: hs), nsec3Cover true p.1 p.2 x = true := by
+  induction hs generalizing a with
+  | nil =>
+    refine ⟨(a, first), by simp [chainPairs], ?_⟩
+    rw [cover_iff]; refine ⟨rfl, ?_⟩
+    unfold strictlyBetweenCircular
+    by_cases h1 : a < first
+    · omega
+    · by_cases h2 : first < a
+      · simp only [h1, h2, ↓reduceIte]; omega
+      · simp only [h1, h2, ↓reduceIte]; omega
+  | cons b r ih =>
+    obtain ⟨hab, hasc'⟩ := hasc
+    have hxb : x ≠ b := fun e => hn (by simp [e])
+    by_cases hlt : x < b
+    · refine ⟨(a, b), by simp [chainPairs], ?_⟩
+      rw [cover_iff]; refine ⟨rfl, ?_⟩
+      unfold strictlyBetweenCircular
+      simp only [hab, ↓reduceIte]; omega
+    · obtain ⟨p, hp, hc⟩ := ih b hasc' (by omega) (by omega) (fun h => hn (List.mem_cons_of_mem _ h))
+      exact ⟨p, by simp only [chainPairs]; exact List.mem_cons_of_mem _ hp, hc⟩
+
+theorem chain_covers_below (first : Nat) (hs : List Nat) (a x : Nat) (hasc : Ascending (a :: hs)) (hf : first ≤ a)
+    (hx : x < first) :
+    ∃ p ∈ chainPairs first (a :: hs), nsec3Cover true p.1 p.2 x = true := by
+  induction hs generalizing a with
+  | nil =>
+    refine ⟨(a, first), by simp [chainPairs], ?_⟩
+    rw [cover_iff]; refine ⟨rfl, ?_⟩
+    unfold strictlyBetweenCircular
+    by_cases h1 : a < first
+    · omega
+    · by_cases h2 : first < a
+      · simp only [h1, h2, ↓reduceIte]; omega
+      · simp only [h1, h2, ↓reduceIte]; omega
+  | cons b r ih =>
+    obtain ⟨hab, hasc'⟩ := hasc
+    obtain ⟨p, hp, hc⟩ := ih b hasc' (by omega)
+    exact ⟨p, by simp only [chainPairs]; exact List.mem_cons_of_mem _ hp, hc⟩
+
+/-- **chain_complete**: in a complete NSEC3 chain over any number of strictly ascending owner hashes, every hash that no
+    record matches is covered by some record of the chain -/
+theorem chain_complete (a : Nat) (hs : List Nat) (x : Nat) (hasc : Ascending (a :: hs)) (hn : x ∉ a :: hs) :
+    ∃ p ∈ chainPairs a (a :: hs), nsec3Cover true p.1 p.2 x = true := by
+  have hxa : x ≠ a := fun e => hn (by simp [e])
+  by_cases h : x < a
+  · exact chain_covers_below a hs a x hasc (Nat.le_refl _) h
+  · exact chain_covers_above a hs a x hasc (Nat.le_refl _) (by omega) (fun h' => hn (List.mem_cons_of_mem _ h'))
+
+example : Ascending [3, 7, 20] ∧ chainPairs 3 [3, 7, 20] = [(3, 7), (7, 20), (20, 3)] := by
+  simp [Ascending, chainPairs]
+
 /-! ### validity period -/
 
 theorem tdiv_small (x : Int) (h1 : -year68 < x) (h2 : x < year68) : Int.tdiv x year68 = 0 := by
